@@ -111,11 +111,13 @@ def c07run(name, variant, disk, kq, kt):
 
 CHECKS["C07"] = {
     "technique": "pending request threads + real Close with symbolic preemption at its synchronisation points; in-harness file system for Directory storage",
-    "bounds": {"quick": {"writes before Close": "0..K, K=2 (LL), K=3 (fMP4, disk), K=2 (MPEG-TS, disk)", "pending requests": "1..2 of 4 kinds", "preemptions": 1},
+    "bounds": {"quick": {"writes before Close": "0..K, K=2 (LL), K=3 (fMP4, disk), K=2 (MPEG-TS, disk)", "pending requests": "1..2 of 4 kinds (6 with an audio rendition stream that never receives data)", "preemptions": 1},
                "thorough": {"writes before Close": "0..K, K=4", "pending requests": "1..2 of 4 kinds", "preemptions": 3}},
     "assumptions": MUX_STUBS + ["preemption only at synchronisation points", "os.Create/Open/Remove and *os.File methods replaced by an in-harness POSIX-like file system"],
     "outside": ["wall-clock promptness", "OS-level removal semantics", "more than two pending requests"],
-    "runs": [c07run("conc.close.ll", 3, 0, 2, 4), c07run("conc.close.fmp4.disk", 2, 1, 3, 4), c07run("conc.close.ts.disk", 1, 1, 2, 4)] + [r for r in mux_runs() if "slide" in r["name"]],
+    "runs": [c07run("conc.close.ll", 3, 0, 2, 4), c07run("conc.close.fmp4.disk", 2, 1, 3, 4), c07run("conc.close.ts.disk", 1, 1, 2, 4),
+             dict(c07run("conc.close.ll.audio", 3, 0, 2, 3), params={"VARIANT": 3, "DISK": 0, "AUDIO": 1}),
+             dict(c07run("conc.close.fmp4.audio", 2, 0, 2, 3), params={"VARIANT": 2, "DISK": 0, "AUDIO": 1})] + [r for r in mux_runs() if "slide" in r["name"]],
 }
 
 S = "storage/"
